@@ -66,6 +66,12 @@ def schemas_():
     out.append((S('two_identifiers', [('A', [('Id', 'UNIQUE_ID'), ('Code', 'INTEGER')]), ('B', [('Bid', 'INTEGER'), ('A_Id', 'UNIQUE_ID'), ('A_Code', 'INTEGER')])],
                   [Assoc(1, 'B', ['A_Id'], True, True, '', 'A', ['Id'], False, True, ''), Assoc(2, 'B', ['A_Code'], True, True, '', 'A', ['Code'], False, True, '')]),
                 {'A.Id': [5, 7], 'A.Code': [1, 2], 'B.A_Id': [0, 5, 7], 'B.A_Code': [ABSENT, 1, 2, 3]}, (2, 2)))
+    # two associations to the same referred class across the same identifying attributes, listed in different orders
+    out.append((S('crossed_key_order', [('A', [('P', 'INTEGER'), ('Q', 'INTEGER')]), ('B', [('Bid', 'INTEGER'), ('X', 'INTEGER'), ('Y', 'INTEGER')]),
+                                        ('C', [('Cid', 'INTEGER'), ('X', 'INTEGER'), ('Y', 'INTEGER')])],
+                  [Assoc(1, 'B', ['X', 'Y'], True, True, '', 'A', ['P', 'Q'], True, True, ''),
+                   Assoc(2, 'C', ['X', 'Y'], True, True, '', 'A', ['Q', 'P'], True, True, '')]),
+                {'A.P': [1, 2], 'A.Q': [1, 2], 'B.X': [1, 2], 'B.Y': [1, 2], 'C.X': [1, 2], 'C.Y': [ABSENT, 1, 2]}, (2, 1, 1)))
     out.append((S('phrased_non_reflexive', [('A', [('Id', 'UNIQUE_ID')]), ('B', [('Bid', 'INTEGER'), ('A_Id', 'UNIQUE_ID')])],
                   [Assoc(7, 'B', ['A_Id'], True, True, 'is held by', 'A', ['Id'], False, True, 'holds')]),
                 {'A.Id': [5, 7], 'B.A_Id': [0, 5, 9]}, (2, 2)))
